@@ -92,42 +92,48 @@ Definition result_ok (mo : xout) (o : xobs) : bool :=
       Bool.eqb (o_main mo) im && Bool.eqb (o_orph mo) io && N.eqb (errc_code (o_err mo)) ec
   end.
 
-(** n unconnected blocks in a row: each must come back as an orphan without error *)
-Fixpoint junk_run (P : params) (n : nat) (now : Z) (id : N) (a : acc) : option acc :=
+(** n unconnected blocks in a row: each must come back as an orphan without
+    error (the flag says whether the model agrees) *)
+Fixpoint junk_run (P : params) (n : nat) (now : Z) (id : N) (a : acc) (ok : bool) : acc * bool :=
   match n with
-  | O => Some a
+  | O => (a, ok)
   | S k =>
       match xstep_acc_o P a (Dl now (junk_block id)) with
       | (a', mo) =>
-          if negb (o_main mo) && o_orph mo && errc_eqb (o_err mo) ENone
-          then junk_run P k now (id + 1)%N a' else None
+          junk_run P k now (id + 1)%N a'
+                   (ok && negb (o_main mo) && o_orph mo && errc_eqb (o_err mo) ENone)
       end
   end.
 
 Definition acc_state (a : acc) : xstate := fst (fst a).
 
-(** fold the extended model (with the tracked guards) over the events *)
-Fixpoint agree_x (P : params) (T : list block) (a : acc) (evs : list cev) (obs : list xobs) : option acc :=
+(** fold the extended model (with the tracked guards) over the events; the
+    flag: every result and read-back so far agreed.  The fold goes on after a
+    disagreement, so that the theorems' guard for the inputs is known in any
+    case.  [None]: the case is malformed (lengths, an unknown block). *)
+Fixpoint agree_x (P : params) (T : list block) (a : acc) (ok : bool) (evs : list cev) (obs : list xobs)
+  : option (acc * bool) :=
   match evs, obs with
-  | [], [] => Some a
+  | [], [] => Some (a, ok)
   | e :: evs', o :: obs' =>
       let next :=
         match e with
         | CD now id =>
             match ev_block T id with
             | Some b => match xstep_acc_o P a (Dl now b) with
-                        | (a', mo) => if result_ok mo o then Some a' else None
+                        | (a', mo) => Some (a', result_ok mo o)
                         end
             | None => None
             end
         | CF h id =>
-            match xstep_acc_o P a (Fz h id) with (a', mo) => if result_ok mo o then Some a' else None end
+            match xstep_acc_o P a (Fz h id) with (a', mo) => Some (a', result_ok mo o) end
         | CJ now id0 n =>
-            if (junk_base <=? id0)%N && result_ok (mkO false true ENone []) o
-            then junk_run P (N.to_nat n) now id0 a else None
+            if (junk_base <=? id0)%N
+            then Some (junk_run P (N.to_nat n) now id0 a (result_ok (mkO false true ENone []) o))
+            else None
         end in
       match next with
-      | Some a' => if readback_ok (acc_state a') o then agree_x P T a' evs' obs' else None
+      | Some (a', k) => agree_x P T a' (ok && k && readback_ok (acc_state a') o) evs' obs'
       | None => None
       end
   | _, _ => None
@@ -146,15 +152,15 @@ Definition pool_ok (s : xstate) (pool : list (N * N)) : bool :=
 Definition params_of (cap ttl : Z) (ebc : bool) (cmps : list (N * N)) : params :=
   mkP cap ttl ebc (fun n t => existsb (fun p => N.eqb (fst p) n && N.eqb (snd p) t) cmps).
 
+(** the tracked run over the events and whether the node agreed with it throughout *)
 Definition model_ok_x (P : params) (T : list block) (evs : list cev) (obs : list xobs)
-                      (fmain : list N) (pool : list (N * N)) : option acc :=
+                      (fmain : list N) (pool : list (N * N)) : option (acc * bool) :=
   match T with
   | [] => None
   | g :: _ =>
-      match agree_x P T (xinit g 0, [], true) evs obs with
-      | Some a =>
-          if list_eqb N.eqb (rev (xmain (acc_state a))) fmain && pool_ok (acc_state a) pool
-          then Some a else None
+      match agree_x P T (xinit g 0, [], true) true evs obs with
+      | Some (a, ok) =>
+          Some (a, ok && list_eqb N.eqb (rev (xmain (acc_state a))) fmain && pool_ok (acc_state a) pool)
       | None => None
       end
   end.
@@ -189,13 +195,13 @@ Definition check_case (c : case) : verdict :=
   | CExt cap ttl ebc cmps T evs obs fmain pool txok =>
       let P := params_of cap ttl ebc cmps in
       let ma := model_ok_x P T evs obs fmain pool in
-      let m := match ma with Some _ => true | None => false end in
+      let m := match ma with Some (_, ok) => ok | None => false end in
       let gid := match T with g :: _ => bid g | [] => 0%N end in
       let R := connected T (gid :: tree_ids evs) in
       let Tc := map (fun e => fst (fst e)) R in
       (* the theorem's guard, for the connected delivered blocks, from the inputs *)
       let guard := match ma with
-                   | Some (_, held, ok) =>
+                   | Some ((_, held, ok), _) =>
                        ok && forallb (fun b => N.eqb (bid b) gid || memN (bid b) held) Tc
                    | None => false
                    end in
